@@ -54,7 +54,7 @@ Proof.
   assert (Cont : forall l mk res st',
             match gruns_with (grun h info f) l (start_visit r st) with
             | (LOk vs, st2) => (GOk (mk vs), end_visit r st2)
-            | (LExc, st2) => (GOk (VRepr (gi_repr info r)), warn r (end_visit r st2))
+            | (LExc, st2) => (GOk (VRepr (gi_repr info r)), warn r true (end_visit r st2))
             | (LFuel, st2) => (GFuel, st2)
             end = (res, st') ->
             (res = GFuel /\ mapM (gspec h info f (r :: g_visited st)) l = None) \/
@@ -274,7 +274,7 @@ Proof.
   assert (Cont : forall l (mk : list pyval -> pyval) res st',
             match gruns_with (grun h info f) l (start_visit r st) with
             | (LOk vs, st2) => (GOk (mk vs), end_visit r st2)
-            | (LExc, st2) => (GOk (VRepr (gi_repr info r)), warn r (end_visit r st2))
+            | (LExc, st2) => (GOk (VRepr (gi_repr info r)), warn r true (end_visit r st2))
             | (LFuel, st2) => (GFuel, st2)
             end = (res, st') -> res <> GFuel -> g_visited st' = g_visited st).
   { intros l mk res0 st0 H0 Hf0.
